@@ -144,7 +144,10 @@ func (in *inst) build(chain []layer, i int) error {
 		if strings.Contains(h, ":") {
 			h = "[" + h + "]"
 		}
-		return &url.Error{Op: "Post", URL: "https://" + h + "/meek/", Err: in.build(chain, i+1)}
+		// the URL text of a url.Error is whatever the caller passed: absolute, scheme-less host:port/path (which url.Parse
+		// reads as scheme "host"), protocol relative, a bare host
+		u := []string{"https://" + h + "/meek/", h + ":443/meek/", "//" + h + ":443/", h, "http://user:pw@" + h + ":8080/x?y=" + h}[in.rng.Intn(5)]
+		return &url.Error{Op: []string{"Post", "Get", "parse"}[in.rng.Intn(3)], URL: u, Err: in.build(chain, i+1)}
 	case "Wrap":
 		return fmt.Errorf("transport step failed: %w", in.build(chain, i+1))
 	case "SysWrap":
